@@ -19,6 +19,8 @@ type C11Case struct {
 	// Big > 0 (implies ViaDisk): the first file starts with Big bytes of filler (an LF every 97 bytes)
 	// followed by a CRLF: Big = 2^k - 1 puts the CR on the last byte of a 2^k block
 	Big int `json:"big,omitempty"`
+	// BigOneLine: the filler has no line feeds at all (one line longer than any line buffer)
+	BigOneLine bool `json:"bigOneLine,omitempty"`
 }
 
 func (c *C11Case) Describe() string { return fmt.Sprintf("files=%q beyond=%d", c.Files, c.Beyond) }
@@ -41,7 +43,8 @@ func genC11(t *rapid.T) interface{} {
 	if nf > 0 && rapid.IntRange(0, 40).Draw(t, "big") == 9 {
 		k := rapid.IntRange(12, 17).Draw(t, "bigExp")
 		c.Big = 1<<uint(k) - 1 + rapid.SampledFrom([]int{0, 0, 0, -1, 1}).Draw(t, "bigOff")
-		c.ViaDisk = true
+		c.ViaDisk = rapid.IntRange(0, 3).Draw(t, "bigDisk") > 0
+		c.BigOneLine = rapid.IntRange(0, 2).Draw(t, "bigOneLine") == 0
 	}
 	k := rapid.IntRange(0, 12).Draw(t, "lookups")
 	for i := 0; i < k; i++ {
@@ -78,11 +81,14 @@ func checkC11(ci interface{}, st *Stats) (err error) {
 	for i, raw := range c.Files {
 		if i == 0 && c.Big > 0 {
 			filler := bytes.Repeat([]byte("x"), c.Big)
-			for k := 96; k < len(filler); k += 97 {
+			for k := 96; k < len(filler) && !c.BigOneLine; k += 97 {
 				filler[k] = '\n'
 			}
 			raw = append(append(filler, '\r', '\n'), raw...)
-			st.Class("first file longer than 4 KiB with a CRLF at a block boundary, loaded from disk")
+			st.Class("first file longer than 4 KiB with a CRLF at a block boundary")
+			if c.BigOneLine {
+				st.Class("... whose filler is one single line")
+			}
 		}
 		name := fmt.Sprintf("file%d", i)
 		f := newFileOwned(name, raw)
